@@ -125,6 +125,10 @@ class PathState:
         return [e for e in self.effects if e[0] == "call" and (pred is None or pred(e))]
 
 
+#: module-level names bound to `object()` anywhere in the analysed program (filled by the loader)
+SENTINELS = set()
+
+
 class TooMany(Exception):
     pass
 
@@ -304,6 +308,9 @@ class Interp:
                 return a + b if n == "Add" else a - b
             if n == "Add" and isinstance(a, (bytes, str)) and type(a) is type(b):
                 return a + b
+            if n == "Add" and isinstance(a, tuple) and isinstance(b, tuple) and a and b and a[0] == b[0] and a[0] in ("list", "tuple") \
+                    and len(a) == 2 and len(b) == 2:
+                return (a[0], tuple(a[1]) + tuple(b[1]))          # display + display
             if (intish(a) or is_lin(a)) and (intish(b) or is_lin(b)):
                 return add(a, b, 1 if n == "Add" else -1)
             if (intish(a) or intish(b)) and not isinstance(a, (bytes, str)) and not isinstance(b, (bytes, str)):
@@ -369,6 +376,15 @@ class Interp:
                 return {"Lt": d < 0, "LtE": d <= 0, "Gt": d > 0, "GtE": d >= 0, "Eq": d == 0, "NotEq": d != 0}[op]
         if op in ("Is", "IsNot") and b is None and isinstance(a, tuple) and a and a[0] in ("tuple", "list", "dict", "lin", "fstr"):
             return op == "IsNot"
+        if op in ("Is", "IsNot"):
+            # a private sentinel (a module-level name bound to `object()`) is identical only to itself: the result of a call, a
+            # constant or a display is some other object
+            for x, y in ((a, b), (b, a)):
+                if isinstance(x, tuple) and len(x) == 2 and x[0] == "name" and x[1] in SENTINELS:
+                    if y == x:
+                        return op == "Is"
+                    if conc(y) or (isinstance(y, tuple) and y and y[0] in ("call", "tuple", "list", "dict", "lin", "fstr", "slice", "sub")):
+                        return op == "IsNot"
         if op in ("In", "NotIn") and isinstance(b, tuple) and b and b[0] in ("tuple", "list") and conc(a) \
                 and all(conc(x) for x in b[1]):
             return (a in b[1]) == (op == "In")
